@@ -9,7 +9,7 @@
 From Coq Require Import List ZArith Bool.
 Import ListNotations.
 From Zn.model Require Import Json JsonNum JsonGrammar.
-From Zn.proofs Require Import JsonProofs JsonMapProofs JsonNumProofs JsonApiProofs JsonGrammarProofs.
+From Zn.proofs Require Import JsonProofs JsonMapProofs JsonNumProofs JsonApiProofs JsonGrammarProofs JsonSoundProofs.
 Open Scope Z_scope.
 
 (* Every JSON value — nested arrays/objects with ORDERED members, strings over all Unicode scalar values (quotes,
@@ -72,6 +72,51 @@ Theorem C19_malformed_is_catchable_exception : forall t, parse t = None ->
   parse_json [EStr t] = Exception /\ catchable (parse_json [EStr t]) = true.
 Proof. intros t H. rewrite (malformed_is_exception t H). split; reflexivity. Qed.
 Print Assumptions C19_malformed_is_catchable_exception.
+
+(* ---- the model parser decides exactly the grammar of RFC 8259 (model/JsonGrammar.v, written independently of it) ----
+   For every text of Unicode scalar values (every Zn text is one): rejected by the parser <-> not a JSON text of the grammar.
+   So "malformed" above means "not in the RFC 8259 grammar", not "whatever the model parser happens to reject". *)
+Theorem C19_parser_decides_grammar : forall t, forallb scalarb t = true -> (parse t = None <-> ~ g_json t).
+Proof. exact parse_none_iff_scalar. Qed.
+Print Assumptions C19_parser_decides_grammar.
+
+(* soundness for every text of code points, completeness for every text at all (the parser's own fuel suffices) *)
+Theorem C19_parser_sound : forall t v, cpok t -> parse t = Some v -> g_json t.
+Proof. exact parse_sound. Qed.
+Print Assumptions C19_parser_sound.
+Theorem C19_parser_complete : forall t, g_json t -> exists v, parse t = Some v.
+Proof. exact parse_complete. Qed.
+Print Assumptions C19_parser_complete.
+(* ... and soundness needs the code-point bound: the model parser accepts an element above 0x10FFFF inside a string, the
+   grammar's "unescaped" ends at 0x10FFFF (no Go string can hold such an element: decoding gives U+FFFD) *)
+Theorem C19_parser_sound_needs_code_points : ~ (forall t v, parse t = Some v -> g_json t).
+Proof. exact parse_unsound_without_cpok. Qed.
+Print Assumptions C19_parser_sound_needs_code_points.
+
+(* the value the parser returns is THE value the text denotes: [d_value] (proofs/JsonSoundProofs.v) assigns a value to a
+   grammar derivation without reference to the parser — strings decoded per RFC 8259 section 7 with encoding/json's
+   surrogate rule, elements and members in document order, number tokens kept — and is a function of the text *)
+Theorem C19_parser_returns_denotation : forall t v, cpok t -> parse t = Some v ->
+  (exists w1 p w2, t = w1 ++ p ++ w2 /\ g_ws w1 /\ g_ws w2 /\ d_value p v) /\
+  (forall w1 p w2 v', t = w1 ++ p ++ w2 -> g_ws w1 -> g_ws w2 -> d_value p v' -> v' = v).
+Proof. exact parse_is_denotation. Qed.
+Print Assumptions C19_parser_returns_denotation.
+
+(* any accepted Zn text: in the grammar, its value well formed, and a fixed point of render-then-parse *)
+Theorem C19_accepted_text : forall t v, forallb scalarb t = true -> parse t = Some v ->
+  g_json t /\ wf v = true /\ parse (render v) = Some v /\ g_json (render v).
+Proof. exact parse_some_scalar. Qed.
+Print Assumptions C19_accepted_text.
+
+(* text outside the grammar handed to 解析JSON raises the catchable exception *)
+Theorem C19_not_json_is_catchable_exception : forall t, forallb scalarb t = true -> ~ g_json t ->
+  parse_json [EStr t] = Exception /\ catchable (parse_json [EStr t]) = true.
+Proof. exact not_json_is_catchable_exception. Qed.
+Print Assumptions C19_not_json_is_catchable_exception.
+
+Example C19_example_grammar_text : g_json ex_text /\ parse ex_text =
+  Some (JObj [([98], JArr [JNum (NumTok false [49] [53] (Some (101, [45], [51]))); JStr [0x1F600; 0xFFFD]]); ([97], JNull)]).
+Proof. split; [exact ex_text_json | exact ex_text_parses]. Qed.
 
 (* whatever the text: an exception or a dictionary *)
 Theorem C19_parse_outcomes : forall t,
